@@ -325,6 +325,46 @@ class Program:
             return sub[0]
         return None
 
+    # ------------------------------------------------------------------ shape normalisation (sa.inline)
+    def normalise_class(self, ci, keep=(), only=None, public=False, propagate=True):
+        """Replace the method / setter bodies of ci by their flattened + propagated form (in this Program only).
+        keep: helper names that are anchors of rules and must stay calls."""
+        from .inline import prep, flatten, class_lookup
+        originals = {}
+        for table in (ci.methods, ci.setters, ci.getters):
+            originals[id(table)] = dict(table)
+        look = class_lookup(self, ci, public)
+        for table in (ci.methods, ci.setters, ci.getters):
+            for name, fn in list(originals[id(table)].items()):
+                if only is not None and name not in only:
+                    continue
+                new = prep(fn, look, keep=keep) if propagate else flatten(fn, look, keep=keep)
+                for a in ('owner', 'setter_target', 'is_setter', 'cy_kind', 'cy_type'):
+                    if hasattr(fn, a):
+                        setattr(new, a, getattr(fn, a))
+                table[name] = new
+        return ci
+
+    def normalise_module(self, mi, keep=(), only=None, public=False, propagate=True):
+        from .inline import prep, flatten, module_lookup
+        look = module_lookup(mi, public)
+        orig = dict(mi.functions)
+
+        def lookup(c):
+            f = c.func
+            if isinstance(f, ast.Name) and (f.id.startswith('_') or public) and f.id in orig:
+                return orig[f.id], False, f.id
+            return None
+        for name, fn in orig.items():
+            if only is not None and name not in only:
+                continue
+            new = prep(fn, lookup, keep=keep) if propagate else flatten(fn, lookup, keep=keep)
+            for a in ('cy_kind', 'cy_type'):
+                if hasattr(fn, a):
+                    setattr(new, a, getattr(fn, a))
+            mi.functions[name] = new
+        return mi
+
     def mro(self, ci):
         out, seen = [], set()
 
